@@ -55,6 +55,8 @@ def worker_main(prop, tier, seed, jobjson, out):
 def run_jobs(prop, tier, seed, jobs, workdir, timeout):
     """Run jobs as subprocesses, at most NCPU at a time.  Returns list of result dicts."""
     env = bootstrap.worker_env({"VERIF_SEED": str(seed), "VERIF_TIER": tier})
+    if not jobs:
+        return []
     pending = list(enumerate(jobs))
     running = []
     results = [None] * len(jobs)
@@ -157,7 +159,14 @@ def main(argv=None):
                 j["n"] = max(1, int(j["n"] * args.scale))
     workdir = tempfile.mkdtemp(prefix="pgv-%s-" % prop.lower())
     errors = []
+    pre_violations = []
     try:
+        if hasattr(module, "prepare_run"):
+            # e.g. C19 builds the accelerated kernels in a scratch copy of the working tree
+            prep = module.prepare_run(args.tier) or {}
+            os.environ.update(prep.get("env", {}))
+            pre_violations = list(prep.get("violations", []))
+            errors.extend(prep.get("errors", []))
         if args.inproc:
             if hasattr(module, "init_worker"):
                 module.init_worker(args.tier)
@@ -175,7 +184,7 @@ def main(argv=None):
         # -------------------------------------------------- known findings / regressions
         if hasattr(module, "init_worker"):
             module.init_worker(args.tier)
-        violations = []
+        violations = list(pre_violations)
         known_lines = []
         for e in known:
             w = e.get("witness")
@@ -315,6 +324,11 @@ def main(argv=None):
             return 2
         return 0
     finally:
+        if hasattr(module, "finish_run"):
+            try:
+                module.finish_run()
+            except Exception:
+                traceback.print_exc()
         shutil.rmtree(workdir, ignore_errors=True)
 
 
